@@ -115,6 +115,12 @@ func (core *JApiCore) addOperationID(d *directive.Directive) *jerr.JApiError {
 	return nil
 }
 
+// addTags validates the Tags directive itself. The Tags of a URL are otherwise looked at only when a method of the URL
+// has no Tags of its own, so that a wrong URL-level Tags directive could pass unnoticed.
+func (core *JApiCore) addTags(d *directive.Directive) *jerr.JApiError {
+	return core.catalog.CheckTagsDirective(d)
+}
+
 func (core *JApiCore) addVersion(d *directive.Directive) *jerr.JApiError {
 	version := d.NamedParameter("Version")
 	if version == "" {
